@@ -559,8 +559,9 @@ func (x *Exec) sqlQuery(st *State, fr *Frame, c *callCtx) bool {
 	rowsT := c.ret.Type().(*types.Tuple).At(0).Type()
 	text, ok := x.sqlTextOf(st, c.args[1])
 	var stmt *SQLStmt
-	params := x.varargs(st, c.args[2])
+	var params []Value
 	if ok {
+		params = x.varargs(st, c.args[2])
 		stmt = x.parseOne(st, text)
 		if stmt == nil {
 			return true
@@ -706,6 +707,57 @@ func (x *Exec) sqlRowsScan(st *State, fr *Frame, c *callCtx) bool {
 
 // searchTemplate handles tx.Query(fmt.Sprintf(TEMPLATE, placeholder), args...)
 // (the SQLite search statements). Implemented in search.go.
+// searchTemplate handles a statement built as fmt.Sprintf(TEMPLATE, dynamic) where TEMPLATE is a SELECT
+// with one %s hole after its WHERE condition (the tag filter of the search statements). The hole stands for
+// an unknown further conjunct: rows satisfy the written condition (and more). Positional parameters before
+// the hole are the leading arguments; the ones after it (the LIMIT) follow the hole's own arguments, whose
+// number is unknown, and are taken as unconstrained.
 func (x *Exec) searchTemplate(st *State, text Value, args Value) (*SQLStmt, []Value) {
-	return nil, nil
+	sc, ok := x.force(st, text).(VScalar)
+	if !ok {
+		return nil, nil
+	}
+	tmpl, ok := x.sprintfFmt[sc.T.S]
+	if !ok || strings.Count(tmpl, "%s") != 1 {
+		return nil, nil
+	}
+	stmts, err := ParseSQL(tmpl)
+	if err != nil || len(stmts) != 1 || stmts[0].Select == nil || !stmts[0].Select.HasHole {
+		return nil, nil
+	}
+	before := strings.Count(tmpl[:strings.Index(tmpl, "%s")], "?")
+	total := strings.Count(tmpl, "?")
+	sl, ok := x.force(st, args).(VSlice)
+	if !ok || sl.Arr < 0 {
+		return nil, nil
+	}
+	params := make([]Value, total)
+	for i := 0; i < total; i++ {
+		x.callCounter++
+		params[i] = VScalar{x.sym.Fresh(fmt.Sprintf("sqlparam.after.hole!%d", x.callCounter), SInt)}
+	}
+	get := func(k int) (Value, bool) {
+		switch arr := st.heap[sl.Arr].(type) {
+		case VArray:
+			if sl.Lo+k < len(arr.E) {
+				return arr.E[sl.Lo+k], true
+			}
+		case *VAbsArr:
+			for _, c := range arr.Cells {
+				if v, ok := isIntLit(c.Idx); ok && int(v) == k {
+					return c.Val, true
+				}
+			}
+		}
+		return nil, false
+	}
+	for k := 0; k < before; k++ {
+		v, ok := get(k)
+		if !ok {
+			return nil, nil
+		}
+		params[k] = v
+	}
+	x.notes["statement template with a %s hole (tag filter): rows satisfy the written WHERE condition and an unknown further one; parameters after the hole are unconstrained"] = true
+	return stmts[0], params
 }
